@@ -553,13 +553,11 @@ func init() {
 // by reference, so that the nested post-processors (handed to the parent) resolve the async slots in place.
 var execCallers = map[string]string{
 	"(*Query).execAndPostProcess": "completes the query itself: waits, then runs the post-processors",
-	"BuildFromAliasedTable":       "derived table: the rows are kept by reference (wrapped under the alias)",
-	"SubqueryExpr":                "row-scoped subquery: the row list is stored as one value",
 	"ExistExpr":                   "EXISTS: only the emptiness of the rows is used",
 }
 
 func ruleC12ExecCallers(c *Ctx) {
-	c.Doc("c12.exec-callers", "who may call: (*Query).exec — which returns rows that may still hold unresolved async slots (*any) — is called only by execAndPostProcess and by the enumerated nested-query sites that keep the nested rows by reference (derived table, row-scoped subquery, EXISTS; their wait/post-processor hand-over is c07.nested-discipline); every other consumer (CTE thunk, union branch, inner arrays) must use execAndPostProcess, because it copies the rows' values into new rows")
+	c.Doc("c12.exec-callers", "who may call: (*Query).exec — which returns rows that may still hold unresolved async slots (*any) — is called only by execAndPostProcess and by EXISTS, which uses nothing but the emptiness of the rows (its wait/post-processor hand-over is c07.nested-discipline); every consumer that reads or keeps the rows (derived table, row-scoped subquery, CTE thunk, union branch, inner arrays) runs the nested query to completion with execAndPostProcess: the enclosing query filters, joins and computes on those rows, and a column an ASYNC call has not delivered yet is a pointer there (`SELECT d.x FROM (SELECT ASYNC.f(a) AS x FROM t) d WHERE d.x > 2` compared an address)")
 	exec := c.P.Method(modPath, "Query", "exec")
 	if exec == nil {
 		c.Unknown("c12.exec-callers", "(*Query).exec", "-", "anchor lost")
@@ -610,11 +608,11 @@ func ruleC12ExecCallers(c *Ctx) {
 			n++
 			rk := c.P.funcKey(root)
 			reason, allowed := execCallers[rk]
-			c.Check(allowed, "c12.exec-callers", "exec <- "+c.P.funcKey(f), c.P.Pos(ci.Pos()), reason, c.P.funcKey(f)+" runs a nested query with exec() and is not one of the enumerated by-reference sites: rows whose async slots are still unresolved can be copied into the result")
+			c.Check(allowed, "c12.exec-callers", "exec <- "+c.P.funcKey(f), c.P.Pos(ci.Pos()), reason, c.P.funcKey(f)+" runs a nested query with exec() and reads or keeps its rows: columns whose ASYNC calls have not delivered yet are still `*any` slots there (wrong comparisons, pointers in the result); run it to completion with execAndPostProcess")
 		})
 	}
-	if n < 4 {
-		c.Unknown("c12.exec-callers", "(*Query).exec", c.P.Pos(exec.Pos()), fmt.Sprintf("only %d call sites of exec found (4 confirmed by reading)", n))
+	if n < 2 {
+		c.Unknown("c12.exec-callers", "(*Query).exec", c.P.Pos(exec.Pos()), fmt.Sprintf("only %d call sites of exec found (2 confirmed by reading: execAndPostProcess, EXISTS)", n))
 	}
 }
 
